@@ -14,6 +14,13 @@ def add(pid, category, technique, text, note, ref):
     CHECKS[pid] = (category, technique, text, note, ref)
 
 
+add("C01", "exploration",
+    "stateful model-based property testing (Hypothesis-driven histories vs a copy-on-assignment Python model, snapshot after every statement) plus an exhaustive builtin-call sweep",
+    "Statement histories over all listed mutation forms with deliberately injected aliases (variables, container slots, closures, "
+    "struct fields, function arguments); every variable is compared with the model after every statement; statements that raise "
+    "inside try/catch may only change their addressed slots; every pure builtin applied to a bound variable must leave it unchanged.",
+    "Trusted: the Python model (deepcopy at every binding), nlrun snapshot/serialiser, Hypothesis. Integers small, strings ASCII.",
+    "DESIGN.md §3 C01")
 add("C06", "exploration",
     "property-based testing (Hypothesis) against a Python-int reference model; operands produced in several representations",
     "Generated (operator, operands, production form) cases are evaluated by the real interpreter and compared with CPython "
